@@ -16,6 +16,7 @@ type Opt struct {
 	Dense           bool     // make pointer fields non-nil more often
 	RelativePeriods bool     // allow TimePeriodType values with only a relative end time
 	MaxDepth        int      // below this depth pointers to structs become nil (default 4)
+	UnsortedFull    bool     // listgen: the items of a full update may come in any identifier order
 	NestedElements  bool     // listgen: delete elements may name sub elements (value:{scale:{}})
 	LooseSelectors  bool     // listgen: delete selectors may name part of the key or non-key elements (several matches)
 }
